@@ -546,10 +546,11 @@ func (b *builder) fillStruct(lhs, p string, t types.Type) {
 		if _, isArr := f.Type().Underlying().(*types.Array); isArr {
 			continue
 		}
-		if !strings.Contains(b.query, "M_"+typeKey(f.Type())+"@") && !strings.Contains(b.query, "M_"+typeKey(f.Type())+"!") && !strings.Contains(b.query, "M_"+typeKey(f.Type())+".") {
+		fmn := b.vc.enc.memForField(t, i)
+		if !strings.Contains(b.query, fmn+"@") && !strings.Contains(b.query, fmn+"!") && !strings.Contains(b.query, fmn+".") {
 			continue // this memory plays no role in the query: the zero value is as good as any
 		}
-		val := b.value(b.vc.load(b.st, fp, f.Type()), f.Type())
+		val := b.value(b.vc.loadM(b.st, b.vc.enc.memForField(t, i), fp, f.Type()), f.Type())
 		b.stmts = append(b.stmts, fmt.Sprintf("%s.%s = %s", lhs, f.Name(), val))
 	}
 }
